@@ -11,6 +11,8 @@ def run(ctx: Ctx) -> None:
     with ctx.parallel():
         t6_transforms.run_fit(ctx)
     ctx.floor("T6x.fit", 16)
+    t6_transforms.run_linked_reset(ctx)
+    ctx.floor("T6x.linked-reset", 6)
     ctx.floor("T6x.condition-copy", 6)
     t6_transforms.run_composite_histories(ctx)
     from ..tables import t67_transforms
